@@ -42,9 +42,12 @@ KINDS = {
     "unrecnoext": ("NOTES", None),
     # a file that already declares copyright and licence in a header of its own
     "hdr": ("i.py", "python"),
+    # styles that have a line form and a block form
+    "cpp": ("j.cpp", "cpp"),
+    "js": ("k.js", "cpp"),
 }
 UNREC = ("unrec", "unrecnoext")
-TERMINATOR = {"html": "-->", "c": "*/", "jinja": "#}", "ml": "*)"}
+TERMINATOR = {"html": "-->", "c": "*/", "jinja": "#}", "ml": "*)", "cpp": "*/"}
 
 
 def generate(tier, seed):
